@@ -161,6 +161,9 @@ class World(WsWorld):
         return acts
 
     def app_op(self, ep):
+        self.fw.call(self, self._app_op, ep)
+
+    def _app_op(self, ep):
         ch = self.run.ch
         self.ops_left -= 1
         p = ep.p
@@ -321,7 +324,7 @@ class World(WsWorld):
         sent = m.close_count >= 1
         if not sent:
             if not ep.p.droppedByMe:
-                how = "peer-dropped-while-own-close-frame-still-queued" if len(ep.p.send_queue) else "peer-dropped"
+                how = "peer-dropped-while-own-close-frame-still-queued" if ep.queue_at_onclose else "peer-dropped"
             else:
                 how = "own-drop"
             run.violate("C05.clean-means-both", "clean-without-own-close-frame-written:" + how, ep.name)
